@@ -16,6 +16,8 @@ HARNESS = os.environ.get("VERIF_HARNESS") or os.path.join(ROOT, "harness")
 BIN = os.path.join(OUT, "bin" if not os.environ.get("VERIF_HARNESS") else "bin-" + hashlib.sha1(HARNESS.encode()).hexdigest()[:8])
 REPLAYS = os.path.join(OUT, "replays")
 EVID = os.path.join(ROOT, "evidence")
+if os.environ.get("VERIF_HARNESS"):  # selftest / seeded-change runs against a scratch worktree never touch the committed evidence
+    EVID = os.path.join(OUT, "evidence-" + hashlib.sha1(HARNESS.encode()).hexdigest()[:8])
 NCPU = os.cpu_count() or 4
 
 
